@@ -13,8 +13,9 @@ import (
 )
 
 type c09Region struct {
-	Segs [][2]int `json:"segs"` // each {head, tail}; tail<head = reverse orientation
-	Bare bool     `json:"bare"` // single segment passed as a bare Segment instead of Regions{Segment}
+	Segs [][2]int `json:"segs"`           // each {head, tail}; tail<head = reverse orientation
+	Bare bool     `json:"bare"`           // single segment passed as a bare Segment instead of Regions{Segment}
+	Nest int      `json:"nest,omitempty"` // 1: the segments after the first form an inner Regions (a compound inside a compound); 2: the whole is wrapped once more
 }
 
 type c09Case struct {
@@ -51,6 +52,17 @@ func (c c09Case) build(order []int, flip []bool) gts.Regions {
 		sub := make(gts.Regions, len(segs))
 		for i, s := range segs {
 			sub[i] = s
+		}
+		if r.Nest > 0 && len(segs) >= 2 {
+			// a compound inside a compound, as the region of join(a,complement(join(b,c))) is
+			inner := make(gts.Regions, len(segs)-1)
+			for i, s := range segs[1:] {
+				inner[i] = s
+			}
+			sub = gts.Regions{segs[0], inner}
+			if r.Nest > 1 {
+				sub = gts.Regions{sub}
+			}
 		}
 		rr = append(rr, sub)
 	}
@@ -265,7 +277,7 @@ func c09Gen(t *rapid.T) c09Case {
 	coord := rapid.OneOf(rapid.IntRange(0, n), rapid.SampledFrom([]int{0, n, n / 2, 1, n - 1}))
 	for i := 0; i < nr; i++ {
 		ns := rapid.IntRange(1, 4).Draw(t, "nsegs")
-		r := c09Region{Bare: rapid.Bool().Draw(t, "bare")}
+		r := c09Region{Bare: rapid.Bool().Draw(t, "bare"), Nest: rapid.SampledFrom([]int{0, 0, 0, 1, 2}).Draw(t, "nest")}
 		for j := 0; j < ns; j++ {
 			a := coord.Draw(t, "a")
 			var b int
